@@ -35,10 +35,13 @@ func (c08) Rule() string {
 	return "Synthetic plans = DAGs of fetches; each fetch declares DependsOnFetchIDs and its request template reads one unique value from every dependency's merged result. " +
 		"Case kinds (index space = concatenation of the kinds table, fixed count per tier): " +
 		"l1.exhaustive: one case per (n, edge mask) for n<=4 (thorough n<=5, each mask split into 4 blocks of id assignments), inside it every fetch-id assignment x every raw order (n=5: identity, reverse and 2 seeded raw orders); " +
-		"l1.random/l1.nested/l1.entity/l1.dup: seeded random plans up to 14 fetches (random/layered/chains/diamonds/forest/components shapes; nested = fetches hanging under response paths of other fetches, some without declared dependencies; entity = entity/batch-entity fetches on few subgraphs so that same-wave fetches merge into multi fetches; dup = exact duplicate fetches). " +
-		"Every layer-1 plan is post-processed under 10 option sets (waves|scheduler|serial x +-multi-fetch x +-de-duplication; every 4th random plan additionally as the response tree of a subscription plan whose root carries the trigger; a quarter of the entity plans with eagerly printed inputs) and the tree is checked: every planned fetch exactly once (as itself, as member of a merged request, or via the first fetch of its duplicate class) and every dependency completes before its dependant starts. " +
-		"l2.*: the same plan kinds (plus errors = fetches failing with GraphQL errors or at transport level) executed by the real Resolver/Loader (alternating ResolveGraphQLResponse / ArenaResolveGraphQLResponse) with gated fake subgraphs under 3-5 option sets: all completion orders for n<=4, per parallel group all permutations up to 4 members (seeded beyond), seeded flat priorities, burst (whole wave released at once) and ungated runs; oracles: request content equals the values the dependencies delivered, arrival after merged/release of every dependency on one logical clock, each planned request at most/exactly once, response identical across completion orders (data bytes, errors as multiset). " +
-		"A layer-1 plan is non-trivial when it has >=1 dependency edge; a layer-2 case when >=1 execution really had >=2 requests pending at once and the plan has >=1 edge. Distinct = canonical labelled plan."
+		"l1.random/l1.nested/l1.entity/l1.dup: seeded random plans up to 14 fetches (random/layered/chains/diamonds/forest/components shapes; nested = fetches hanging under response paths of other fetches, some without declared dependencies; entity = entity/batch-entity fetches on few subgraphs so that same-wave fetches merge into multi fetches; dup = exact duplicate fetches); " +
+		"l1.dupfan: directed de-duplication shapes (a fetch with 1-2 exact duplicates behind a chain of 0-3 fetches and 2-5 dependants spread over the copies, random ids and raw order). " +
+		"Every layer-1 plan is built with a FetchInfo on every fetch (planner default) AND on no fetch (plan.Configuration.DisableIncludeInfo; quick tier of l1.exhaustive: for a checkerboard half of id assignment x raw order), every other random plan additionally with a seeded mix, and post-processed under 10 option sets (waves|scheduler|serial x +-multi-fetch x +-de-duplication; every 4th random plan additionally as the response tree of a subscription plan whose root carries the trigger; a quarter of the entity plans with eagerly printed inputs) and the tree is checked: every planned fetch exactly once (as itself, as member of a merged request, or via the first fetch of its duplicate class) and every dependency completes before its dependant starts. " +
+		"l2.*: the same plan kinds (plus errors = fetches failing in one of 8 ways: GraphQL errors with data, GraphQL errors with data:null, transport error, 502 with a non-JSON body, 503 with data:null, 500 with errors, 200 with data:null and no errors, empty body) executed by the real Resolver/Loader (alternating ResolveGraphQLResponse / ArenaResolveGraphQLResponse) with gated fake subgraphs under 3-5 option sets and a seeded FetchInfo mode (dup/dupfan plans: with FetchInfo and without): all completion orders for n<=4, per parallel group all permutations up to 4 members (seeded beyond), seeded flat priorities, burst (whole wave released at once) and ungated runs; " +
+		"l2.faults: one group of 2-4 mutually independent fetches of which at least two fail in different ways, optionally behind a healthy root and followed by a reader of the group, every completion order the tree allows; " +
+		"oracles: request content equals the values the dependencies delivered, arrival after merged/release of every dependency on one logical clock, each planned request at most/exactly once, response identical across completion orders (data bytes, errors as multiset of error objects). " +
+		"A layer-1 plan is non-trivial when it has >=1 dependency edge; a layer-2 case when >=1 execution really had >=2 requests pending at once and the plan has >=1 edge (faults: always when requests overlapped). Distinct = canonical labelled plan incl. its FetchInfo mode."
 }
 
 func (c08) Assumptions() []string {
@@ -47,8 +50,10 @@ func (c08) Assumptions() []string {
 		"FetchTreeNode semantics: Sequence = children one after the other, Parallel = children concurrently, node complete when all children complete; a MultiEntityFetch stands for all its MergedFetchIDs",
 		"de-duplication is modelled as: a fetch equal (request template, variables, path) to an earlier raw fetch is represented by the first one of its class",
 		"LoaderHooks.OnFinished is called by the loader inside the merge phase (used as the 'merged' event); only early arrivals are judged, never late ones",
-		"a fetch whose (transitive) dependency failed at transport level may be skipped by the loader; whether it must be is C07's question",
+		"a fetch whose (transitive) dependency delivered nothing (transport error, unusable or empty answer, non-2xx without data, data:null) may be skipped by the loader; whether it must be is C07's question",
 		"the stage DisableOrderSequenceByDependencies (switching the ordering mechanism off) is not a scheduling option set",
+		"plans come from the harness, not from the planner: the FetchInfo modes model plan.Configuration.DisableIncludeInfo (no fetch carries a FetchInfo) and hand-built plans (some do); fake subgraphs report their HTTP status the way the HTTP client of a real data source does (httpclient.ResponseContext)",
+		"errors are compared as whole error objects (message, path, extensions) after replacing the per-execution nonce; the match fact messages_and_paths_differ tells whether the difference is visible in (message, path) alone",
 	}
 }
 
@@ -59,6 +64,16 @@ func (c08) RequiredCounters(string) []string {
 		"l2_plans", "l2_executions", "l2_executions_perm", "l2_executions_flat", "l2_executions_burst", "l2_executions_free",
 		"l2_requests", "l2_dependency_edges_checked", "l2_contents_checked", "l2_merge_events", "l2_parallel_groups_observed",
 		"l2_completion_orders", "l2_responses_compared", "l2_multi_requests",
+		// FetchInfo dimension (plan.Configuration.DisableIncludeInfo) and the rewiring of dependants of removed duplicates
+		"l1_plans_fetchinfo_all", "l1_plans_fetchinfo_none", "l1_plans_fetchinfo_mixed",
+		"l1_plans_removed_duplicate_with_2plus_dependants_fetchinfo_all", "l1_plans_removed_duplicate_with_2plus_dependants_fetchinfo_none",
+		"l2_plans_fetchinfo_all", "l2_plans_fetchinfo_none", "l2_plans_fetchinfo_mixed",
+		"l2_plans_removed_duplicate_with_2plus_dependants_fetchinfo_all", "l2_plans_removed_duplicate_with_2plus_dependants_fetchinfo_none",
+		// failing subgraph answers under controlled completion orders
+		"l2_trees_with_differently_failing_parallel_fetches", "l2_error_multisets_compared", "l2_error_multisets_compared_2plus_errors_parallel_faults",
+	}
+	for _, m := range faultModes {
+		req = append(req, "l2_fault_answers_"+m.String())
 	}
 	for _, o := range allOptSets {
 		req = append(req, "l1_dags_"+o.Name)
@@ -265,8 +280,22 @@ type l1acc struct {
 	keys map[string]bool
 }
 
+// l1PlanModes runs the structural check on the plan once per FetchInfo mode (with FetchInfo on
+// every fetch = planner default; on none = plan.Configuration.DisableIncludeInfo; mixed).
+func l1PlanModes(res *fw.Result, acc *l1acc, spec *planSpec, eager bool, salt uint64, modes ...infoMode) {
+	for _, m := range modes {
+		l1Plan(res, acc, spec.withInfo(m, salt), eager)
+	}
+}
+
 func l1Plan(res *fw.Result, acc *l1acc, spec *planSpec, eager bool) {
 	res.Count("l1_plans", 1)
+	res.Count("l1_plans_fetchinfo_"+spec.Info.String(), 1)
+	if fan := spec.removedFanout(); fan >= 2 {
+		// a duplicate that de-duplication removes has >= 2 dependants to rewire
+		res.Count("l1_plans_removed_duplicate_with_2plus_dependants", 1)
+		res.Count("l1_plans_removed_duplicate_with_2plus_dependants_fetchinfo_"+spec.Info.String(), 1)
+	}
 	for _, o := range allOptSets {
 		resp, _, err := process(spec, o, eager)
 		if err != nil {
@@ -282,7 +311,7 @@ func l1Plan(res *fw.Result, acc *l1acc, spec *planSpec, eager bool) {
 			continue
 		}
 		st := checkStructure(res, spec, o, tm, func() map[string]any {
-			return map[string]any{"plan": spec.String(), "opt": o.Name, "tree": dumpTree(resp.Fetches), "eager_input": eager}
+			return map[string]any{"plan": spec.String(), "opt": o.Name, "tree": dumpTree(resp.Fetches), "eager_input": eager, "fetch_info": spec.Info.String()}
 		})
 		res.Count("l1_dependency_edges_checked", int64(st.edges))
 		res.Count("l1_dedupe_accounted", int64(st.accounted))
@@ -322,7 +351,7 @@ func l1SubscriptionPlan(res *fw.Result, spec *planSpec) {
 			continue
 		}
 		st := checkStructure(res, spec, o, tm, func() map[string]any {
-			return map[string]any{"plan": spec.String(), "opt": o.Name, "tree": dumpTree(resp.Fetches), "subscription_trigger_fetch_id": triggerID}
+			return map[string]any{"plan": spec.String(), "opt": o.Name, "tree": dumpTree(resp.Fetches), "subscription_trigger_fetch_id": triggerID, "fetch_info": spec.Info.String()}
 		})
 		res.Count("l1_dependency_edges_checked", int64(st.edges))
 		res.Count("l1_dedupe_accounted", int64(st.accounted))
@@ -363,13 +392,20 @@ func runL1Exhaustive(c *fw.Ctx, res *fw.Result, idx, local int) {
 	}
 	block := len(perms) / cs.parts
 	idperms := perms[cs.part*block : (cs.part+1)*block]
-	for _, idperm := range idperms {
-		for _, order := range orders {
-			l1Plan(res, acc, dagFromMask(cs.n, cs.mask, idperm, order), false)
+	for i, idperm := range idperms {
+		for j, order := range orders {
+			// with FetchInfo: every (id assignment, raw order); without FetchInfo: all of them in the
+			// thorough tier, a checkerboard half in the quick tier (every id assignment and every
+			// raw order still meets the mode)
+			modes := []infoMode{infoAll}
+			if c.Tier == fw.Thorough || (i+j)%2 == 0 {
+				modes = append(modes, infoNone)
+			}
+			l1PlanModes(res, acc, dagFromMask(cs.n, cs.mask, idperm, order), false, 0, modes...)
 		}
 	}
 	res.Key = fw.HashKey("l1.exhaustive", cs.n, cs.mask, cs.part)
-	res.Sample = map[string]any{"kind": "l1.exhaustive", "n": cs.n, "mask": cs.mask, "id_assignments": len(idperms), "id_assignment_block": fmt.Sprintf("%d/%d", cs.part+1, cs.parts), "raw_orders": len(orders), "option_sets": len(allOptSets)}
+	res.Sample = map[string]any{"kind": "l1.exhaustive", "n": cs.n, "mask": cs.mask, "id_assignments": len(idperms), "id_assignment_block": fmt.Sprintf("%d/%d", cs.part+1, cs.parts), "raw_orders": len(orders), "option_sets": len(allOptSets), "fetch_info_modes": "all; none (quick: checkerboard half of id assignment x raw order)"}
 	acc.finish(res)
 }
 
@@ -384,12 +420,19 @@ func runL1Random(c *fw.Ctx, res *fw.Result, idx int, gen func(*rand.Rand) *planS
 		if i == 0 {
 			first = spec.String()
 		}
-		l1Plan(res, acc, spec, spec.Kind == "entity" && rng.IntN(4) == 0)
+		eager := spec.Kind == "entity" && rng.IntN(4) == 0
+		salt := rng.Uint64()
+		// every plan with FetchInfo on all fetches and on none; every other plan also mixed
+		modes := []infoMode{infoAll, infoNone}
+		if i%2 == 1 {
+			modes = append(modes, infoMixed)
+		}
+		l1PlanModes(res, acc, spec, eager, salt, modes...)
 		if i%4 == 3 {
-			l1SubscriptionPlan(res, spec)
+			l1SubscriptionPlan(res, spec.withInfo([]infoMode{infoAll, infoNone, infoMixed}[(i/4)%3], salt))
 		}
 	}
-	res.Sample = map[string]any{"plans": l1PlansPerCase, "first": first}
+	res.Sample = map[string]any{"plans": l1PlansPerCase, "first": first, "fetch_info_modes": "all,none (+mixed for every other plan)"}
 	acc.finish(res)
 }
 
@@ -403,7 +446,9 @@ type l2params struct {
 	burst       int
 	free        int
 	passthrough bool
-	eager       bool // entity plans: printed Input instead of the SubgraphOperation artifact
+	eager       bool       // entity plans: printed Input instead of the SubgraphOperation artifact
+	infoModes   []infoMode // FetchInfo modes the plan is executed under (nil = with FetchInfo only)
+	infoSalt    uint64
 }
 
 type l2acc struct {
@@ -414,7 +459,24 @@ type l2acc struct {
 }
 
 func l2Plan(c *fw.Ctx, res *fw.Result, acc *l2acc, idx int, spec *planSpec, rng *rand.Rand, p l2params) {
+	modes := p.infoModes
+	if len(modes) == 0 {
+		modes = []infoMode{infoAll}
+	}
+	for _, m := range modes {
+		l2PlanMode(c, res, acc, idx, spec.withInfo(m, p.infoSalt), rng, p)
+		if acc.stalled || res.Inconclusive != "" && strings.HasPrefix(res.Inconclusive, "hang:") {
+			return
+		}
+	}
+}
+
+func l2PlanMode(c *fw.Ctx, res *fw.Result, acc *l2acc, idx int, spec *planSpec, rng *rand.Rand, p l2params) {
 	res.Count("l2_plans", 1)
+	res.Count("l2_plans_fetchinfo_"+spec.Info.String(), 1)
+	if spec.removedFanout() >= 2 {
+		res.Count("l2_plans_removed_duplicate_with_2plus_dependants_fetchinfo_"+spec.Info.String(), 1)
+	}
 	for _, o := range runtimeOptSets(spec.Kind) {
 		resp, rt, err := process(spec, o, p.eager)
 		if err != nil {
@@ -427,7 +489,7 @@ func l2Plan(c *fw.Ctx, res *fw.Result, acc *l2acc, idx int, spec *planSpec, rng 
 			continue
 		}
 		witness := func() map[string]any {
-			return map[string]any{"plan": spec.String(), "opt": o.Name, "tree": dumpTree(resp.Fetches), "eager_input": p.eager}
+			return map[string]any{"plan": spec.String(), "opt": o.Name, "tree": dumpTree(resp.Fetches), "eager_input": p.eager, "fetch_info": spec.Info.String()}
 		}
 		// the structural oracle applies here as well (a wrong tree explains a runtime finding)
 		checkStructure(res, spec, o, tm, witness)
@@ -469,6 +531,13 @@ func l2Plan(c *fw.Ctx, res *fw.Result, acc *l2acc, idx int, spec *planSpec, rng 
 		var base *normResponse
 		var baseDesc string
 		orders := map[string]bool{}
+		unorderedFaults := 0
+		if spec.faulty() {
+			unorderedFaults = unorderedFaultPairs(spec, tm)
+			if unorderedFaults > 0 {
+				res.Count("l2_trees_with_differently_failing_parallel_fetches", 1)
+			}
+		}
 		for _, sch := range scheds {
 			acc.execCount++
 			nonce := fmt.Sprintf("x%dx%d", idx, acc.execCount)
@@ -500,13 +569,22 @@ func l2Plan(c *fw.Ctx, res *fw.Result, acc *l2acc, idx int, spec *planSpec, rng 
 			env.mu.Lock()
 			maxInflight, hookDone := env.maxInflight, env.hookDone
 			multiReqs := 0
+			faultAnswers := map[string]int{}
 			for _, r := range env.reqs {
 				if r.aliases != nil {
 					multiReqs++
 				}
+				if spec.faulty() {
+					if f := spec.get(r.dsFetch); f != nil && f.Fail != failNone && r.relAt != 0 {
+						faultAnswers[f.Fail.String()]++
+					}
+				}
 			}
 			env.mu.Unlock()
 			res.Count("l2_requests", int64(st.requests))
+			for mode, n := range faultAnswers {
+				res.Count("l2_fault_answers_"+mode, int64(n))
+			}
 			res.Count("l2_multi_requests", int64(multiReqs))
 			res.Count("l2_dependency_edges_checked", int64(st.edges))
 			res.Count("l2_contents_checked", int64(st.contents))
@@ -538,10 +616,10 @@ func l2Plan(c *fw.Ctx, res *fw.Result, acc *l2acc, idx int, spec *planSpec, rng 
 					d := witness()
 					d["response"] = truncate(string(oc.out), 2000)
 					d["schedule"] = sch.desc
-					res.Violate("response.malformed", perr.Error(), map[string]string{"opt": o.Name, "plan_kind": spec.Kind}, d)
+					res.Violate("response.malformed", perr.Error(), map[string]string{"opt": o.Name, "plan_kind": spec.Kind, "fetch_info": spec.Info.String()}, d)
 					continue
 				}
-				if spec.Kind != "errors" {
+				if !spec.faulty() {
 					for _, f := range spec.Fetches {
 						if !strings.Contains(nr.raw, fmt.Sprintf("t%d_N", spec.class(f.ID))) {
 							res.Count("l2_responses_missing_value", 1)
@@ -557,6 +635,12 @@ func l2Plan(c *fw.Ctx, res *fw.Result, acc *l2acc, idx int, spec *planSpec, rng 
 				continue
 			}
 			res.Count("l2_responses_compared", 1)
+			if len(nr.errors) > 0 || len(base.errors) > 0 {
+				res.Count("l2_error_multisets_compared", 1)
+				if len(nr.errors) >= 2 && unorderedFaults > 0 {
+					res.Count("l2_error_multisets_compared_2plus_errors_parallel_faults", 1)
+				}
+			}
 			if ok, part := base.equal(nr); !ok {
 				d := witness()
 				d["schedule_a"] = baseDesc
@@ -564,16 +648,44 @@ func l2Plan(c *fw.Ctx, res *fw.Result, acc *l2acc, idx int, spec *planSpec, rng 
 				d["response_a"] = truncate(base.raw+base.dataIfNoRaw(), 3000)
 				d["response_b"] = truncate(nr.raw+nr.dataIfNoRaw(), 3000)
 				d["trace_b"] = env.trace(env.reqs)
-				res.Violate("response.order-dependent", "the response differs between two completion orders of the same plan ("+part+")",
-					map[string]string{"opt": o.Name, "plan_kind": spec.Kind, "part": part, "schedule": sch.mode}, d)
+				match := map[string]string{"opt": o.Name, "plan_kind": spec.Kind, "part": part, "schedule": sch.mode, "fetch_info": spec.Info.String()}
+				if part == "errors" {
+					d["errors_a"] = base.errorsMP
+					d["errors_b"] = nr.errorsMP
+					match["error_count_differs"] = fmt.Sprint(len(base.errors) != len(nr.errors))
+					match["messages_and_paths_differ"] = fmt.Sprint(!base.sameMessagesAndPaths(nr))
+					match["fault_modes"] = spec.faultSet()
+					match["passthrough"] = fmt.Sprint(p.passthrough)
+				}
+				res.Violate("response.order-dependent", "the response differs between two completion orders of the same plan ("+part+")", match, d)
 			}
 		}
 		res.Count("l2_completion_orders", int64(len(orders)))
 		res.Observe("completion_orders_per_plan", fmt.Sprintf("%03d", len(orders)))
 	}
-	if spec.edges() > 0 {
+	if spec.edges() > 0 || spec.Kind == "faults" {
 		acc.keys[fw.HashKey(spec.canon())] = true
 	}
+}
+
+// unorderedFaultPairs: pairs of fetches that fail in different ways and are not ordered by the
+// tree (their answers can be merged in either order).
+func unorderedFaultPairs(spec *planSpec, tm *treeModel) int {
+	n := 0
+	for i := range spec.Fetches {
+		for j := i + 1; j < len(spec.Fetches); j++ {
+			a, b := &spec.Fetches[i], &spec.Fetches[j]
+			if a.Fail == failNone || b.Fail == failNone || a.Fail == b.Fail {
+				continue
+			}
+			la, oka := tm.leafOf[a.ID]
+			lb, okb := tm.leafOf[b.ID]
+			if oka && okb && la != lb && tm.relation(la, lb) == "parallel" {
+				n++
+			}
+		}
+	}
+	return n
 }
 
 func (n normResponse) dataIfNoRaw() string {
@@ -640,7 +752,29 @@ func runL2Random(c *fw.Ctx, res *fw.Result, idx int, gen func(*rand.Rand) *planS
 	spec := gen(rng)
 	p := l2params{permCap: 24, flatRandom: 4, burst: 2, free: 1, passthrough: rng.IntN(2) == 0}
 	p.eager = spec.Kind == "entity" && rng.IntN(5) == 0
+	p.infoModes, p.infoSalt = l2InfoModes(spec.Kind, rng), rng.Uint64()
 	l2Plan(c, res, acc, idx, spec, rng, p)
-	res.Sample = map[string]any{"plan": spec.String(), "executions": acc.execCount}
+	res.Sample = map[string]any{"plan": spec.String(), "executions": acc.execCount, "fetch_info_modes": fmt.Sprint(p.infoModes)}
 	acc.finish(res)
+}
+
+// l2InfoModes: FetchInfo modes a layer-2 plan is executed under. Plans with duplicates run with
+// FetchInfo on every fetch AND on none (de-duplication rewires dependants either way), every third
+// one also mixed; the other kinds run under one seeded mode.
+func l2InfoModes(kind string, rng *rand.Rand) []infoMode {
+	if kind == "dup" {
+		m := []infoMode{infoAll, infoNone}
+		if rng.IntN(3) == 0 {
+			m = append(m, infoMixed)
+		}
+		return m
+	}
+	switch x := rng.IntN(10); {
+	case x < 5:
+		return []infoMode{infoAll}
+	case x < 8:
+		return []infoMode{infoNone}
+	default:
+		return []infoMode{infoMixed}
+	}
 }
